@@ -23,4 +23,8 @@ Lower(c) == IF c >= 65 /\ c <= 90 THEN c + 32 ELSE c
 LowerSeq(s) == [k \in 1..Len(s) |-> Lower(s[k])]
 
 Range(s) == {s[k] : k \in 1..Len(s)}
+
+\* QString::number(n) for n >= 0
+RECURSIVE DecDigits(_)
+DecDigits(n) == IF n < 10 THEN <<48 + n>> ELSE DecDigits(n \div 10) \o <<48 + (n % 10)>>
 =============================================================================
